@@ -176,9 +176,13 @@ func (x *Exec) coroYield(st *State, fr *Frame, c *callCtx, await bool) bool {
 		x.completeCall(s, c, retTuple(s, compl, VIface{Nil: TTrue, Typ: errType()}))
 		return true
 	case 2: // Sender
+		sendV, sendT := x.fieldOf(st, subP, subT, "Sender")
+		x.siteAsserts(st, fr, "yield", "sender", map[string]TV{"sub": {sendV, sendT}})
+		if st.dead {
+			return true
+		}
 		g.relyStep("rely")
 		g.advanceClock(st)
-		sendV, _ := x.fieldOf(st, subP, subT, "Sender")
 		g.yields = append(g.yields, &YieldRec{Kind: "sender", Now: g.now, Pos: x.prog.pos(c.common.Pos()), Payload: sendV})
 		s := x.failable(st, fr, c, "sender", failed)
 		if s == nil {
